@@ -49,6 +49,7 @@ from cfdppy.exceptions import (
     InvalidNakPdu,
     InvalidPduDirection,
     InvalidPduForSourceHandler,
+    InvalidPutRequest,
     InvalidSourceId,
     InvalidTransactionSeqNum,
     NoRemoteEntityCfgFound,
@@ -327,6 +328,8 @@ class SourceHandler:
             File specified for Put Request does not exist.
         FileNameTooLong
             A file name of the Put Request does not fit into a Metadata PDU.
+        InvalidPutRequest
+            Only one of the two file names was specified.
 
         Returns
         --------
@@ -336,6 +339,9 @@ class SourceHandler:
         if self.states.state != CfdpState.IDLE:
             _LOGGER.debug("CFDP source handler is busy, can't process put request")
             return False
+        if (request.source_file is None) != (request.dest_file is None):
+            # Only a metadata only request omits the file names, and it omits both of them.
+            raise InvalidPutRequest("source and destination file name must be given together")
         self._put_req = request
         if self._put_req.source_file is not None:
             assert isinstance(self._put_req.source_file, Path)
